@@ -12,7 +12,7 @@
 use std::collections::BTreeSet;
 
 use blake2b_simd::{Params as B2Params, State as B2State};
-use primitive_types::U256;
+use primitive_types::{U256, U512};
 use vh_common::rand::seq::SliceRandom;
 use vh_common::rand::{Rng, RngCore};
 use vh_common::rand_chacha::ChaCha20Rng;
@@ -129,6 +129,28 @@ impl Hv for W256 {
     }
     fn top(self, b: u32) -> u32 {
         (self.0 >> (256 - b as usize)).low_u32()
+    }
+    fn zero(self) -> bool {
+        self.0.is_zero()
+    }
+}
+
+#[derive(Clone, Copy)]
+struct W512(U512);
+impl Hv for W512 {
+    fn from_be(b: &[u8]) -> Self {
+        let mut w = [0u8; 64];
+        w[..b.len()].copy_from_slice(b);
+        W512(U512::from_big_endian(&w))
+    }
+    fn xor(self, o: Self) -> Self {
+        W512(self.0 ^ o.0)
+    }
+    fn shl(self, b: u32) -> Self {
+        W512(self.0 << b)
+    }
+    fn top(self, b: u32) -> u32 {
+        (self.0 >> (512 - b as usize)).low_u32()
     }
     fn zero(self) -> bool {
         self.0.is_zero()
@@ -1314,6 +1336,10 @@ fn main() {
     if args.tier == vh_common::Tier::Thorough {
         sets.extend([(152, 7, 1), (80, 3, 1), (120, 5, 1), (160, 7, 1), (200, 9, 1), (272, 16, 1), (88, 3, 1), (168, 7, 1)]);
     }
+    // debugging aid: --only-n N --only-k K restricts the solver phase to one parameter set
+    if let (Some(n), Some(k)) = (args.extra.get("only-n"), args.extra.get("only-k")) {
+        sets = vec![(n.parse().expect("only-n"), k.parse().expect("only-k"), 1)];
+    }
     let total_w: u32 = sets.iter().map(|s| s.2).sum();
     let max_inst = args.get_u64("max-instances", args.pick(100_000, 10_000_000));
     let mut i = 0u64;
@@ -1331,8 +1357,10 @@ fn main() {
         let it = random_instance(&mut rng, sel.0, sel.1);
         if sel.0 <= 128 {
             solved_instance::<u128>(&mut c, &mut rng, &it, flip_cap, true);
-        } else {
+        } else if sel.0 <= 256 {
             solved_instance::<W256>(&mut c, &mut rng, &it, flip_cap, true);
+        } else {
+            solved_instance::<W512>(&mut c, &mut rng, &it, flip_cap, true);
         }
     }
     c.r.finish();
